@@ -441,21 +441,23 @@ func (d *Decoder) scanPre(data []byte, atEOF bool) (advance int, token []byte, e
 	case idx == 0 && !atEOF && len(data) == len(fence):
 		// We need to make sure it's followed by a newline, so get more data.
 		return 0, nil, nil
-	case idx == 0 && (atEOF || (len(data) > len(fence) && data[len(fence)] == '\n')):
+	case idx == 0 && (len(data) == len(fence) || data[len(fence)] == '\n'):
 		d.mask |= BlockPreEnd
 		d.clearMask |= BlockPre | BlockPreEnd
 		l := len(fence)
-		if !atEOF {
+		if len(data) > l {
 			l++
 		}
 		return l, data[:l], nil
 	}
-	if atEOF {
-		return len(data), data, nil
-	}
+	// Always split on lines, even if all of the remaining input is already
+	// available, so that tokens do not depend on read sizes.
 	newLineIDX := bytes.IndexByte(data, '\n')
 	if newLineIDX >= 0 {
 		return newLineIDX + 1, data[:newLineIDX+1], nil
+	}
+	if atEOF {
+		return len(data), data, nil
 	}
 	return 0, nil, nil
 }
